@@ -1,0 +1,105 @@
+//go:build verif
+
+// Contracts for package xsync (comment-only; see ../../contracts_verif.go).
+package xsync
+
+// ---------------------------------------------------------------------------------------------
+// Builtin-map semantics over the abstract view `view(m) : Key -> Option Value` (the oracle for Map/MapOf).
+// mapInv(m) is the representation invariant; outside this package it is opaque.
+// ---------------------------------------------------------------------------------------------
+//@ define mapInv(m) = inv(m)
+//@ define valOr0(o) = ite(present(o), val(o), nil)
+
+//@ -- twin-begin Map
+//@ func (*Map).Load
+//@   requires m != nil && mapInv(m)
+//@   let o = old(view(m))[key]
+//@   ensures {C11,C03} post.ok: ok == present(o)
+//@   ensures {C11,C03} post.value: value == valOr0(o)
+
+//@ func (*Map).Store
+//@   requires m != nil && mapInv(m)
+//@   modifies view(m)
+//@   ensures {C11,C03} post.state: view(m) == put(old(view(m)), key, value)
+//@   ensures mapInv(m)
+
+//@ func (*Map).Compute
+//@   requires m != nil && mapInv(m)
+//@   let o = old(view(m))[key]
+//@   calls locked valueFn(valOr0(o), present(o)) -> (nv, del)
+//@   modifies view(m)
+//@   ensures {C11,C03} post.del: del ==> view(m) == remove(old(view(m)), key) && actual == valOr0(o) && !ok
+//@   ensures {C11,C03} post.upd: !del ==> view(m) == put(old(view(m)), key, nv) && actual == nv && ok
+//@   ensures mapInv(m)
+
+//@ func (*Map).LoadAndDelete
+//@   requires m != nil && mapInv(m)
+//@   let o = old(view(m))[key]
+//@   modifies view(m)
+//@   ensures {C11,C03} post.state: view(m) == remove(old(view(m)), key)
+//@   ensures {C11,C03} post.value: value == valOr0(o) && loaded == present(o)
+//@   ensures mapInv(m)
+
+//@ func (*Map).Delete
+//@   requires m != nil && mapInv(m)
+//@   modifies view(m)
+//@   ensures {C11,C03} post.state: view(m) == remove(old(view(m)), key)
+//@   ensures mapInv(m)
+
+//@ func (*Map).Clear
+//@   requires m != nil && mapInv(m)
+//@   modifies view(m)
+//@   ensures {C11,C03} post.state: view(m) == emptymap(old(view(m)))
+//@   ensures mapInv(m)
+
+//@ func (*Map).Size
+//@   requires m != nil && mapInv(m)
+//@   ensures {C08} post.value: bv2int(res0) == card(view(m))
+//@ -- twin-end Map
+
+//@ -- twin-begin MapOf
+//@ func (*MapOf[K, V]).Load
+//@   requires m != nil && mapInv(m)
+//@   let o = old(view(m))[key]
+//@   ensures {C11,C03} post.ok: ok == present(o)
+//@   ensures {C11,C03} post.value: value == valOr0(o)
+
+//@ func (*MapOf[K, V]).Store
+//@   requires m != nil && mapInv(m)
+//@   modifies view(m)
+//@   ensures {C11,C03} post.state: view(m) == put(old(view(m)), key, value)
+//@   ensures mapInv(m)
+
+//@ func (*MapOf[K, V]).Compute
+//@   requires m != nil && mapInv(m)
+//@   let o = old(view(m))[key]
+//@   calls locked valueFn(valOr0(o), present(o)) -> (nv, del)
+//@   modifies view(m)
+//@   ensures {C11,C03} post.del: del ==> view(m) == remove(old(view(m)), key) && actual == valOr0(o) && !ok
+//@   ensures {C11,C03} post.upd: !del ==> view(m) == put(old(view(m)), key, nv) && actual == nv && ok
+//@   ensures mapInv(m)
+
+//@ func (*MapOf[K, V]).LoadAndDelete
+//@   requires m != nil && mapInv(m)
+//@   let o = old(view(m))[key]
+//@   modifies view(m)
+//@   ensures {C11,C03} post.state: view(m) == remove(old(view(m)), key)
+//@   ensures {C11,C03} post.value: value == valOr0(o) && loaded == present(o)
+//@   ensures mapInv(m)
+
+//@ func (*MapOf[K, V]).Delete
+//@   requires m != nil && mapInv(m)
+//@   modifies view(m)
+//@   ensures {C11,C03} post.state: view(m) == remove(old(view(m)), key)
+//@   ensures mapInv(m)
+
+//@ func (*MapOf[K, V]).Clear
+//@   requires m != nil && mapInv(m)
+//@   modifies view(m)
+//@   ensures {C11,C03} post.state: view(m) == emptymap(old(view(m)))
+//@   ensures mapInv(m)
+
+//@ func (*MapOf[K, V]).Size
+//@   requires m != nil && mapInv(m)
+//@   ensures {C08} post.value: bv2int(res0) == card(view(m))
+//@ -- twin-end MapOf
